@@ -16,13 +16,73 @@ LEVEL_TEXT = ("The page hierarchy of website.py is modelled in Lean over an abst
               "values with an independent render at n / servings.")
 LEVEL_NOTE = ("Partial: files actually written (pathlib, open, copyfile) and Jinja templates are outside the model. Known finding: two recipes whose file names "
               "differ only in the extension's letter case map to one page. Trusted: Lean kernel; model as far as correspondence exercises it.")
-LEAN_MODULES = ["RecipeGrid.Props.C15"]
+LEAN_MODULES = ["RecipeGrid.Props.C15", "RecipeGrid.Props.C15b"]
 SOURCES = ["recipe_grid/static_site/website.py", "recipe_grid/static_site/recipe_directory.py", "recipe_grid/markdown.py"]
 RULE = c14.RULE + "; stated serving counts 1..5 including counts above M (error expected)"
 
 
 def correspondence(run):
     c14.correspondence(run)
+    scale_correspondence(run)
+
+
+def scale_correspondence(run):
+    """the factor handed to MarkdownRecipe.render by the site generator and by the stand-alone page, per (page count, stated count),
+    against the model's pageScale (theorems pageScale_* in Props/C15b.lean); a stated count of 0 must fail on both sides"""
+    from pathlib import Path
+    from recipe_grid import markdown as MD
+    from recipe_grid.static_site import website as W
+    from recipe_grid.static_site.standalone_page import generate_standalone_page
+    rng = run.rng
+    seen, cur = [], [None]
+    orig_render, orig_from = MD.MarkdownRecipe.render, W.RecipePage.from_recipe_source.__func__
+
+    def render(self, scale=1):
+        seen.append((cur[0], self.servings, scale))
+        return orig_render(self, scale)
+
+    def from_recipe_source(cls, servings, *a, **k):
+        cur[0] = ("site", servings)
+        try:
+            return orig_from(cls, servings, *a, **k)
+        finally:
+            cur[0] = None
+
+    MD.MarkdownRecipe.render = render
+    W.RecipePage.from_recipe_source = classmethod(from_recipe_source)
+    try:
+        for i in range(run.budget(6, 60)):
+            d, M = gen_case(rng)
+            src, gen_out, scratch, err = gen_site.generate(d, M)
+            shutil.rmtree(scratch, ignore_errors=True)
+        scratch = gen_site.scratch_root()
+        try:
+            for native in (0, 1, 2, 3, 7, 12, None):
+                f = Path(scratch) / ("r%s.md" % native)
+                f.write_text("# Soup%s\n\n    %s eggs\n" % ("" if native is None else " for %d" % native, 4))
+                for n in (1, 2, 3, 5, 12, 24):
+                    if native is None:
+                        continue
+                    cur[0] = ("standalone", n)
+                    try:
+                        generate_standalone_page(f, servings=n, embed_local_links=False)
+                    except ZeroDivisionError:
+                        seen.append((cur[0], native, "zerodiv"))
+                    finally:
+                        cur[0] = None
+        finally:
+            shutil.rmtree(scratch, ignore_errors=True)
+    finally:
+        MD.MarkdownRecipe.render = orig_render
+        W.RecipePage.from_recipe_source = classmethod(orig_from)
+    cases = sorted({(c[1], nat, sc if sc == "zerodiv" else sexp.pynum(sc)) for c, nat, sc in seen if c is not None}, key=repr)
+    reqs = [sexp.tag("pagescale", sexp.opt(lambda x: str(x), n), sexp.opt(lambda x: str(x), nat)) for n, nat, _ in cases]
+    for (n, nat, sc), rep in zip(cases, run.ask(reqs)):
+        run.case(("pagescale", n, nat), nat is not None and n != nat, kind="pagescale")
+        run.groups["render factor per page (website + stand-alone) vs pageScale"] += 1
+        want = None if sc == "zerodiv" else sc
+        if rep != want:
+            run.disagree("pagescale", "servings=%r stated=%r" % (n, nat), want, rep)
 
 
 def expected_files(d, M):
